@@ -23,8 +23,10 @@ import (
 	"io"
 	"os"
 	"path/filepath"
+	"runtime"
 	"runtime/debug"
 	"sort"
+	"strconv"
 	"strings"
 	"sync"
 	"testing"
@@ -197,7 +199,57 @@ type CaseFile struct {
 	Property string          `json:"property"`
 	Error    string          `json:"error,omitempty"`
 	Note     string          `json:"note,omitempty"`
-	Case     json.RawMessage `json:"case"`
+	// Env holds the process settings the case was executed under where they differ from the default (one shard of every
+	// check runs on a single CPU); a replay puts them in place first.
+	Env  map[string]string `json:"env,omitempty"`
+	Case json.RawMessage   `json:"case"`
+}
+
+var caseEnvVars = []string{"GOMAXPROCS"}
+
+func currentEnv() map[string]string {
+	var m map[string]string
+	for _, k := range caseEnvVars {
+		if v := os.Getenv(k); v != "" {
+			if m == nil {
+				m = map[string]string{}
+			}
+			m[k] = v
+		}
+	}
+	return m
+}
+
+// applyEnv puts the settings of a case file in place and returns the function that undoes it.
+func applyEnv(env map[string]string) func() {
+	var undo []func()
+	for _, k := range caseEnvVars {
+		v, ok := env[k]
+		if !ok {
+			continue
+		}
+		old, had := os.LookupEnv(k)
+		os.Setenv(k, v) // sandbox workers inherit it
+		k := k
+		undo = append(undo, func() {
+			if had {
+				os.Setenv(k, old)
+			} else {
+				os.Unsetenv(k)
+			}
+		})
+		if k == "GOMAXPROCS" {
+			if n, err := strconv.Atoi(v); err == nil && n > 0 {
+				prev := runtime.GOMAXPROCS(n)
+				undo = append(undo, func() { runtime.GOMAXPROCS(prev) })
+			}
+		}
+	}
+	return func() {
+		for i := len(undo) - 1; i >= 0; i-- {
+			undo[i]()
+		}
+	}
 }
 
 func writeCase(path, property string, c any, errText string) {
@@ -208,7 +260,7 @@ func writeCase(path, property string, c any, errText string) {
 	if err != nil {
 		cb, _ = json.Marshal(fmt.Sprintf("unmarshallable case: %v", err))
 	}
-	b, _ := json.MarshalIndent(CaseFile{Property: property, Error: errText, Case: cb}, "", " ")
+	b, _ := json.MarshalIndent(CaseFile{Property: property, Error: errText, Env: currentEnv(), Case: cb}, "", " ")
 	tmp := path + ".tmp"
 	if err := os.WriteFile(tmp, b, 0644); err == nil {
 		os.Rename(tmp, path)
@@ -302,7 +354,10 @@ func (c Checker[C]) Replay(t *testing.T) {
 			Eval()
 		}
 		Class("replayed")
-		if err := Safely(func() error { return c.Check(cs) }); err != nil {
+		restore := applyEnv(cf.Env)
+		err = Safely(func() error { return c.Check(cs) })
+		restore()
+		if err != nil {
 			writeCase(os.Getenv("VERIF_CASEFILE"), c.Property, cs, err.Error())
 			fmt.Printf("REPLAY-FAIL file=%s\n", f)
 			t.Errorf("%s violated by %s: %v", c.Property, f, err)
